@@ -96,7 +96,7 @@ PROPS['C12'] = dict(
 PROPS['C13'] = dict(
     modules=['Vivid.Props.C13', 'Vivid.Tie.Registry'],
     gens=['registry'],
-    engines=[dict(name='codec', only=r'ALLOC|DEST-MODIFIED|PANIC|FATAL|panic', must_hit=['truncated:err', 'corrupted:err', 'corrupted:ok', 'random:err', 'write:ok', 'write:err', 'memcap:65536',
+    engines=[dict(name='codec', only=r'ALLOC|DEST-MODIFIED|ENCODE-SILENT|PANIC|FATAL|panic', must_hit=['truncated:err', 'corrupted:err', 'corrupted:ok', 'random:err', 'write:ok', 'write:err', 'memcap:65536',
                                                                                           'wnil:err', 'wzero:nopanic', 'rfl:u64s', 'rfl:strs', 'rfl:recs', 'rfl:nested', 'rfl:rec', 'rfl-truncated:err', 'rfl-hostile:err', 'rflinto:err', 'rflinto:ok'])],
     rule=CODEC_RULE,
     trusted_base=COMMON_TRUST + ['runtime.MemStats.TotalAlloc as the allocation observation (budget 64 B per input byte + 16 MiB for the codec\'s own 65536-entry caps)'],
@@ -120,7 +120,7 @@ AS_ASSUME = ['mailbox policy (system first, user only when not paused, one handl
 for _pid, _only, _must in [
     ('C03', r'LOST-USER-MESSAGE|AFTER-STOP|ended twice|PANIC|LOST WAKE-UP|FATAL', ['ev:dead-letter', 'stash:dec1:hooks0', 'stash:dec1:hooks1', 'stash:dec2', 'stash:dec3', 'stash:dec5', 'stash:deck']),
     ('C05', r'LIFECYCLE|LAUNCH-TWICE|RESTART-NO-LAUNCH|STALE-INSTANCE|PANIC|FATAL', ['ev:restarted', 'ev:zombie', 'ev:spawn-err:prelaunch']),
-    ('C06', r'KILL-ONCE|CHILDREN-FIRST|NOT-RELEASED|HALF-STOPPED|PANIC|FATAL', ['ev:killed-event', 'ev:spawn-err:exists', 'ev:spawn-err:dead']),
+    ('C06', r'KILL-ONCE|CHILDREN-FIRST|NOT-RELEASED|HALF-STOPPED|JOB-SURVIVES-OWNER|PANIC|FATAL', ['ev:killed-event', 'ev:spawn-err:exists', 'ev:spawn-err:dead']),
     ('C08', r'DECIDE-TWICE|SUPERVISION-WHILE-STOPPING|STAYS-PAUSED|HALF-STOPPED|PANIC|FATAL', ['ev:decide:1', 'ev:decide:2', 'ev:decide:3', 'ev:decide:4', 'ev:decide:5', 'ev:decide:6', 'matrix:', 'escal:kindM1:depth1', 'escal:kindM2:depth1', 'escal:kindM2:depth2']),
     ('C09', r'STAYS-PAUSED|HALF-STOPPED|NO-ANSWER|ZOMBIE-RUNS-USER-CODE|PANIC|FATAL', ['ev:restarted', 'ev:zombie', 'ev:decide:5', 'ev:decide:2', 'ev:decide:4', 'escal:kindM1:depth1', 'escal:kindM2:depth1', 'escal:kindM2:depth2', 'escal:dec5', 'escal:dec4', 'escal:dec2']),
     ('C19', r'ES-TABLES|EVENT-TWICE|EVENT-NOT-SUBSCRIBED|EVENT-MISSED|PANIC|FATAL', ['ev:es-sub', 'ev:es-unsub', 'ev:es-unsuball', 'ev:es-pub-with-subscribers']),
@@ -153,7 +153,7 @@ PROPS['C06']['trusted_base'] = AS_TRUST + ['placement of the kh.* yield sites (a
 PROPS['C20'] = dict(
     modules=['Vivid.Props.C20', 'Vivid.Props.C19C20Global'],
     gens=[],
-    engines=[dict(name='actorsys', only=r'JOB-SURVIVES-OWNER|JOB-KEY-COLLISION|CANCEL-UNKNOWN|PANIC|FATAL', must_hit=['ev:sched-once', 'ev:sched-loop', 'ev:cancel:ok', 'ev:cancel:notfound', 'ev:sched-clear', 'ev:cron-invalid', 'sched-scenario']),
+    engines=[dict(name='actorsys', only=r'JOB-SURVIVES-OWNER|JOB-KEY-COLLISION|CANCEL-UNKNOWN|PANIC|FATAL', must_hit=['ev:sched-once', 'ev:sched-loop', 'ev:cancel:ok', 'ev:cancel:notfound', 'ev:sched-clear', 'ev:cron-invalid', 'sched-scenario', 'sched-owner:running:kill', 'sched-owner:kill:kill', 'sched-owner:okilled:poison', 'sched-owner:killed:fail-stop', 'sched-owner:okilled:fail-restart']),
              dict(name='schedrt', nomodel=True, must_hit=['rt:once', 'rt:loop-cancel', 'rt:owner-restarted', 'rt:owner-killed', 'rt:fired-then-clear', 'rt:fired-then-killed', 'rt:fired-then-restarted'])],
     rule=AS_RULE + ' Scheduler scenarios: Once / Loop / Cron(valid|invalid) / Cancel / Clear with shared and reused references, references and actor names containing ":", kills and supervised restarts in between (delays of an hour: registries compared, nothing fires). '
          'schedrt: seven real-time scenarios against go-quartz with a 40 ms unit and one-sided assertions (Once exactly once and not early, Loop stops after Cancel, nothing after Cancel / owner kill / owner restart, no dead letters, unknown Cancel, invalid cron), a failure is re-run twice in isolation before it is reported.',
@@ -181,7 +181,7 @@ PROPS['C04'] = dict(
     modules=['Vivid.Props.C04'],
     gens=[],
     engines=[dict(name='future', must_hit=['t:' + t for t in FUT_T] + ['variant:fixed']),
-             dict(name='askrt', nomodel=True, must_hit=['ask:reply', 'ask:timeout', 'ask:late-reply', 'ask:close', 'ask:asker-dies-1-0', 'ask:asker-dies-3-0', 'ask:asker-dies-1-1', 'ask:asker-dies-1-3', 'ask:asker-dies-2-3', 'ask:asker-dies-3-1', 'ask:asker-restarts'])],
+             dict(name='askrt', nomodel=True, must_hit=['ask:result-window', 'ask:wait-window', 'ask:reply', 'ask:timeout', 'ask:late-reply', 'ask:close', 'ask:asker-dies-1-0', 'ask:asker-dies-3-0', 'ask:asker-dies-1-1', 'ask:asker-dies-1-3', 'ask:asker-dies-2-3', 'ask:asker-dies-3-1', 'ask:asker-restarts'])],
     rule='askrt (monitor only, real system, real time; a failure is re-run twice before it is reported): Ask answered / timed out / answered late / closed by the caller / asker killed with 1, 3 and 2-of-5 Asks outstanding / asker stopped by its supervisor: own reply, prompt actor-dead error, outcome never changes afterwards, nothing left in the future registry. '
          'future: the real future.Future under the fine baton (every statement of close() and PipeTo and the blocking receive of Result are scheduling points). Thread sets of completers (reply / error / timeout-Close), '
          'PipeTo callers (one forwarder each) and Result waiters: the finding\'s own replay, exhaustive DFS over six small sets (budgeted), seeded random schedules of 2-7 threads; after every step closed / done / registered forwarders / '
@@ -275,7 +275,7 @@ PROPS['C18'] = dict(
     modules=['Vivid.Props.C18', 'Vivid.Props.C18Converge'],
     gens=[],
     engines=[dict(name='gossip', must_hit=['scenario:join', 'scenario:idle-long', 'scenario:crash', 'scenario:restart', 'scenario:seed-crash', 'scenario:seed-restart', 'scenario:two-seeds',
-                                           'scenario:late-crash-messages', 'scenario:partition', 'scenario:random', 'rand:crash', 'rand:start', 'rand:recv']),
+                                           'scenario:late-crash-messages', 'scenario:partition', 'scenario:partition-suspect', 'scenario:crash-suspect', 'scenario:random', 'rand:crash', 'rand:start', 'rand:recv']),
              dict(name='gossiprt', nomodel=True, must_hit=['scenario:idle', 'scenario:crash', 'scenario:restart', 'scenario:seedcrash', 'scenario:seedrestart'])],
     rule='gossip: real cluster.NodeActor instances (2..7 nodes) behind a fake ActorContext; the harness is the network (a bag of captured gossip messages: any may be delivered, late, twice or never), the timers (ticks are ops, any phase) and the clock. '
          'Directed scenarios (join orders, one or two seeds incl. self-seeded islands, long idle, crash, restart on the same address, seed crash / restart, messages of a crashed node arriving late, partitions longer than the timeout then healed) and seeded '
